@@ -132,9 +132,15 @@ public:
 			dispatcher->appendListener(event, listener)
 		};
 
-		{
+		try {
 			std::unique_lock<typename DispatcherType::Mutex> lock(itemListMutex);
 			itemList.push_back(item);
+		}
+		catch(...) {
+			// The listener is attached but could not be recorded (allocation or Event copy failed):
+			// detach it again, otherwise it would stay attached with no remover owning it.
+			dispatcher->removeListener(item.event, item.handle);
+			throw;
 		}
 
 		return item.handle;
@@ -151,9 +157,15 @@ public:
 			dispatcher->prependListener(event, listener)
 		};
 		
-		{
+		try {
 			std::unique_lock<typename DispatcherType::Mutex> lock(itemListMutex);
 			itemList.push_back(item);
+		}
+		catch(...) {
+			// The listener is attached but could not be recorded (allocation or Event copy failed):
+			// detach it again, otherwise it would stay attached with no remover owning it.
+			dispatcher->removeListener(item.event, item.handle);
+			throw;
 		}
 		
 		return item.handle;
@@ -171,9 +183,15 @@ public:
 			dispatcher->insertListener(event, listener, before)
 		};
 		
-		{
+		try {
 			std::unique_lock<typename DispatcherType::Mutex> lock(itemListMutex);
 			itemList.push_back(item);
+		}
+		catch(...) {
+			// The listener is attached but could not be recorded (allocation or Event copy failed):
+			// detach it again, otherwise it would stay attached with no remover owning it.
+			dispatcher->removeListener(item.event, item.handle);
+			throw;
 		}
 		
 		return item.handle;
@@ -276,9 +294,15 @@ public:
 			callbackList->append(callback)
 		};
 
-		{
+		try {
 			std::unique_lock<typename CallbackListType::Mutex> lock(itemListMutex);
 			itemList.push_back(item);
+		}
+		catch(...) {
+			// The callback is attached but could not be recorded (allocation failed):
+			// detach it again, otherwise it would stay attached with no remover owning it.
+			callbackList->remove(item.handle);
+			throw;
 		}
 
 		return item.handle;
@@ -293,9 +317,15 @@ public:
 			callbackList->prepend(callback)
 		};
 
-		{
+		try {
 			std::unique_lock<typename CallbackListType::Mutex> lock(itemListMutex);
 			itemList.push_back(item);
+		}
+		catch(...) {
+			// The callback is attached but could not be recorded (allocation failed):
+			// detach it again, otherwise it would stay attached with no remover owning it.
+			callbackList->remove(item.handle);
+			throw;
 		}
 
 		return item.handle;
@@ -311,9 +341,15 @@ public:
 			callbackList->insert(callback, before)
 		};
 
-		{
+		try {
 			std::unique_lock<typename CallbackListType::Mutex> lock(itemListMutex);
 			itemList.push_back(item);
+		}
+		catch(...) {
+			// The callback is attached but could not be recorded (allocation failed):
+			// detach it again, otherwise it would stay attached with no remover owning it.
+			callbackList->remove(item.handle);
+			throw;
 		}
 
 		return item.handle;
